@@ -1,21 +1,9 @@
 //@ item canonical.rs const APPLICATION_X_WWW_FORM_URLENCODED
 //@ end
-//@ item canonical.rs struct ContentTypeCharset
-//@ end
 //@ item signature.rs struct SignatureOptions
 //@ end
 
-/// `get_content_type_and_charset` (canonical.rs; iterator-driven, NOT extracted): contract assumed. `content_type_of` is uninterpreted:
-/// how a Content-Type header value is split into media type and charset parameter is not verified here.
-pub uninterp spec fn content_type_of(entries: Seq<(HeaderName, HeaderValue)>) -> Option<(Seq<char>, Option<Seq<char>>)>;
-#[verifier::external_body]
-pub fn get_content_type_and_charset(headers: &HeaderMap<HeaderValue>) -> (r: Option<ContentTypeCharset>)
-    ensures
-        content_type_of(headers.entries) is None ==> r is None,
-        content_type_of(headers.entries) is Some ==> r is Some && r->Some_0.content_type@ == content_type_of(headers.entries)->Some_0.0
-            && (content_type_of(headers.entries)->Some_0.1 is None ==> r->Some_0.charset is None)
-            && (content_type_of(headers.entries)->Some_0.1 is Some ==> r->Some_0.charset is Some && r->Some_0.charset->Some_0@ == content_type_of(headers.entries)->Some_0.1->Some_0),
-{ unimplemented!() }
+// get_content_type_and_charset and the reference reading content_type_of: contracts/ctype.rs (verified in unit ctype)
 
 pub open spec fn FORM_TYPE() -> Seq<char> { "application/x-www-form-urlencoded"@ }
 /// does the request fold its form body into the query? (C12)
@@ -57,6 +45,17 @@ pub open spec fn frp_ok(parts: Parts, body: Bytes, options: SignatureOptions, cr
             &&& folded_uri_ok(cr.qview(), cr.path_bytes(), parts2.uri)
         }
 }
+/// C02 / C12 (completeness of canonicalisation): when from_request_parts must succeed. The path and URL query are well-formed and, when the
+/// form body is folded, its charset is known, it decodes, it parses as a query string and http accepts the rebuilt path-and-query
+pub open spec fn frp_accepts(parts: Parts, body: Bytes, options: SignatureOptions) -> bool {
+    &&& canon_path(parts.uri.path, options.s3) is Some && parse_query(url_query(parts)) is Some
+    &&& folds(parts, options) ==> {
+        let bodyq = str_bytes(spec_decode(body_encoding(parts)->Some_0, body.data)->Some_0);
+        &&& body_encoding(parts) is Some && spec_decode(body_encoding(parts)->Some_0, body.data) is Some && parse_query(bodyq) is Some
+        &&& forall|qs: Seq<u8>| #[trigger] is_canon_query(map_of(parse_query(url_query(parts))->Some_0 + parse_query(bodyq)->Some_0), qs)
+                ==> uri_accepts(canon_path(parts.uri.path, options.s3)->Some_0 + (if qs.len() > 0 { seq![0x3fu8] + qs } else { Seq::<u8>::empty() }))
+    }
+}
 pub proof fn lemma_frp_wf(parts: Parts, body: Bytes, options: SignatureOptions, cr: CanonicalRequest, parts2: Parts, body2: Bytes)
     requires frp_ok(parts, body, options, cr, parts2, body2)
     ensures cr.wf()
@@ -74,6 +73,11 @@ pub proof fn lemma_merge_with_empty_body(a: Map<String, Vec<String>>, b: Map<Str
         assert(merge_append(m, QMap::empty()) =~= m);
     }
 }
+impl CanonicalRequest {
+}
+// (own module: one solver context per module keeps this function's queries small and independent of the rest of the unit)
+pub mod frp_m {
+use super::*;
 impl CanonicalRequest {
 //@ fn canonical.rs impl CanonicalRequest :: from_request_parts
 //@ hideutf8
@@ -97,6 +101,7 @@ impl CanonicalRequest {
                     && parse_query(str_bytes(spec_decode(body_encoding(parts)->Some_0, body.data)->Some_0)) is None ==> r is Err && r->Err_0 is MalformedQueryString)
         }, //# C12 C13 name=undecodable_or_malformed_form_body_is_refused
         r is Err ==> (r->Err_0 is InvalidURIPath || r->Err_0 is MalformedQueryString || r->Err_0 is InvalidBodyEncoding), //# C13 name=stage_error_kinds
+        d6_ok(parts) && frp_accepts(parts, body, options) ==> r is Ok, //# C02 C12 name=well_formed_request_is_accepted_by_canonicalisation
         d6_ok(parts) && r is Ok ==> frp_ok(parts, body, options, r->Ok_0.0, r->Ok_0.1, r->Ok_0.2), //# C01 C09 C10 C11 C12 C15 C19 name=canonical_request_is_that_of_the_request_as_received_and_request_passes_through
 //@ bodystart
     let ghost parts0 = parts;
@@ -194,18 +199,54 @@ impl CanonicalRequest {
     }
 //@ end
 }
+} // mod frp_m
+impl CanonicalRequest {
+}
 
 //@ item signature.rs const ALLOWED_MISMATCH_MINUTES
 //@ end
 
 /// `IntoRequestBytes` (signature.rs): `#[async_trait] async fn into_request_bytes(self) -> Result<Bytes, BoxError>`. `async fn` in a trait is outside
-/// Verus's subset: the trait is declared here with an associated future type (same call-site text `body.into_request_bytes().await`);
-/// `body_bytes` names what the conversion yields. The three impls in the crate are not verified by Verus (see DESIGN.md).
+/// Verus's subset: for the generic call in sigv4_validate_request the trait is declared here with an associated future type (same call-site
+/// text `body.into_request_bytes().await`); `body_bytes` names what the conversion yields.
 pub trait IntoRequestBytes: Sized {
     type Fut: Future<Output = Result<Bytes, BoxError>>;
     spec fn body_bytes(self) -> Result<Bytes, BoxError>;
     fn into_request_bytes(self) -> (f: Self::Fut)
         ensures f.awaited() ==> f@ == self.body_bytes();
+}
+
+/// The crate's three impls (C15 "body conversions"): their bodies are extracted verbatim into this synchronous twin of the trait; the one
+/// declared rewrite per function drops the `async` keyword (with `#[async_trait]` the body runs unchanged when the boxed future is awaited).
+/// Each is proved to hand over exactly the bytes it was given.
+pub trait IntoRequestBytesBody: Sized {
+    spec fn bytes_of(self) -> Seq<u8>;
+    fn into_request_bytes(self) -> (r: Result<Bytes, BoxError>)
+        ensures r is Ok && r->Ok_0.data == self.bytes_of(); //# C15 name=body_bytes_handed_over_unchanged
+}
+impl IntoRequestBytesBody for () {
+    open spec fn bytes_of(self) -> Seq<u8> { Seq::<u8>::empty() }
+//@ fn signature.rs impl IntoRequestBytes for () :: into_request_bytes
+//@ props C08 C15
+//@ ret r
+//@ replace 1 `async fn` => `fn`
+//@ end
+}
+impl IntoRequestBytesBody for Vec<u8> {
+    open spec fn bytes_of(self) -> Seq<u8> { self@ }
+//@ fn signature.rs impl IntoRequestBytes for Vec<u8> :: into_request_bytes
+//@ props C08 C15
+//@ ret r
+//@ replace 1 `async fn` => `fn`
+//@ end
+}
+impl IntoRequestBytesBody for Bytes {
+    open spec fn bytes_of(self) -> Seq<u8> { self.data }
+//@ fn signature.rs impl IntoRequestBytes for Bytes :: into_request_bytes
+//@ props C08 C15
+//@ ret r
+//@ replace 1 `async fn` => `fn`
+//@ end
 }
 
 /// the 15 minute window constant as a Duration
@@ -240,6 +281,46 @@ pub open spec fn accepted<G>(parts: Parts, body: Bytes, options: SignatureOption
             provider_answer::<G, GetSigningKeyRequest, GetSigningKeyResponse, BoxError>(g0, req), out, cr, a, d, req)
 }
 
+/// C02 (completeness, end to end): every stage's acceptance condition holds for the request as received - canonicalisation succeeds; for the
+/// canonical request it yields, exactly one carrier is present, its extraction meets every signed-header requirement and carries an ISO-8601
+/// timestamp; the authenticator built from it is inside the 15 minute window and in scope; and the provider, asked for that credential,
+/// answers with a key under which the presented signature is the HMAC of the string to sign
+pub open spec fn acceptable<G>(parts: Parts, body: Bytes, options: SignatureOptions, always: Seq<Seq<u8>>, ifreq: Seq<Seq<u8>>, prefixes: Seq<Seq<u8>>,
+    region: &str, service: &str, now: DateTime<Utc>, g0: G) -> bool
+{
+    &&& frp_accepts(parts, body, options)
+    &&& forall|cr: CanonicalRequest, parts2: Parts, body2: Bytes| #[trigger] frp_ok(parts, body, options, cr, parts2, body2) ==> {
+        &&& cr.acceptable_authenticator(always, ifreq, prefixes)
+        &&& forall|a: SigV4Authenticator| #[trigger] cr.authenticator_ok(always, ifreq, prefixes, a) ==> {
+            &&& forall|d: Duration| #[trigger] fifteen_minutes(d) ==> a.pre_ok(region.spec_bytes(), service.spec_bytes(), now, d)
+            &&& forall|req: GetSigningKeyRequest| #[trigger] a.is_provider_request(region@, service@, req) ==> {
+                let ans = provider_answer::<G, GetSigningKeyRequest, GetSigningKeyResponse, BoxError>(g0, req);
+                ans is Ok && a.sig() == a.expected_sig(ans->Ok_0.s_key())
+            }
+        }
+    }
+}
+
+/// instantiation of `acceptable` at the canonical request and authenticator at hand (proof hint used between the last two stages)
+pub proof fn vk_completeness_hint<G>(parts: Parts, bb: Result<Bytes, BoxError>, options: SignatureOptions, always: Seq<Seq<u8>>, ifreq: Seq<Seq<u8>>, prefixes: Seq<Seq<u8>>,
+    region: &str, service: &str, now: DateTime<Utc>, g0: G, cr: CanonicalRequest, parts2: Parts, body2: Bytes, a: SigV4Authenticator)
+    requires bb is Ok ==> frp_ok(parts, bb->Ok_0, options, cr, parts2, body2), cr.authenticator_ok(always, ifreq, prefixes, a)
+    ensures
+        bb is Ok && acceptable::<G>(parts, bb->Ok_0, options, always, ifreq, prefixes, region, service, now, g0) ==> {
+            &&& a.pre_ok(region.spec_bytes(), service.spec_bytes(), now, Duration { ns: 900_000_000_000int })
+            &&& forall|req: GetSigningKeyRequest| #[trigger] a.is_provider_request(region@, service@, req) ==> {
+                let ans = provider_answer::<G, GetSigningKeyRequest, GetSigningKeyResponse, BoxError>(g0, req);
+                ans is Ok && a.sig() == a.expected_sig(ans->Ok_0.s_key())
+            }
+        }
+{
+    let d = Duration { ns: 900_000_000_000int };
+    assert(fifteen_minutes(d));
+}
+
+// (own module: one solver context per module keeps this function's query independent of the rest of the unit)
+pub mod validate_m {
+use super::*;
 //@ fn signature.rs sigv4_validate_request
 //@ hideutf8
 //@ props C08 C01 C02 C04 C13 C14 C15 C17
@@ -248,7 +329,7 @@ pub open spec fn accepted<G>(parts: Parts, body: Bytes, options: SignatureOption
 //    are desugared to what they mean: `match e { Ok(v) => v, Err(e) => return Err(From::from(e)) }`)
 //@ replace 1 `CanonicalRequest::from_request_parts(parts, body, options)?;` => `match CanonicalRequest::from_request_parts(parts, body, options) { Ok(v) => v, Err(e) => return Err(BoxError::from(e)) };`
 //@ replace 1 `canonical_request.get_authenticator(required_headers)?;` => `match canonical_request.get_authenticator(required_headers) { Ok(v) => v, Err(e) => return Err(BoxError::from(e)) };`
-//@ replace 1 `        )<NL>        .await?;` => `        ).await; let sigv4_response = match sigv4_response { Ok(v) => v, Err(e) => return Err(BoxError::from(e)) };`
+//@ replace 1 `        )<NL>        .await?;` => `        ).await; proof { vk_completeness_hint::<G>(request.parts, request.body.body_bytes(), options, required_headers.always_spec(), required_headers.if_in_request_spec(), required_headers.prefixes_spec(), region, service, server_timestamp, *old(get_signing_key), canonical_request, parts, body, auth); } let sigv4_response = match sigv4_response { Ok(v) => v, Err(e) => return Err(BoxError::from(e)) };`
 //@ spec
     requires
         forall|i: int| 0 <= i < required_headers.always_spec().len() ==> all_ascii(#[trigger] required_headers.always_spec()[i]),
@@ -262,6 +343,10 @@ pub open spec fn accepted<G>(parts: Parts, body: Bytes, options: SignatureOption
         r is Ok ==> accepted::<G>(request.parts, request.body.body_bytes()->Ok_0, options, required_headers.always_spec(), required_headers.if_in_request_spec(),
             required_headers.prefixes_spec(), region, service, server_timestamp, *old(get_signing_key), old(get_signing_key).calls(), final(get_signing_key).calls(), r->Ok_0)
         , //# C01 C02 C04 C14 C15 name=success_means_every_stage_passed_and_signature_matches
+        // C02: a request that meets every stage's acceptance condition is accepted, however its path, query and headers are spelled
+        request.body.body_bytes() is Ok && acceptable::<G>(request.parts, request.body.body_bytes()->Ok_0, options, required_headers.always_spec(),
+            required_headers.if_in_request_spec(), required_headers.prefixes_spec(), region, service, server_timestamp, *old(get_signing_key))
+            ==> r is Ok, //# C02 name=request_meeting_every_acceptance_condition_is_accepted
         // C14: at most one provider call
         final(get_signing_key).calls() == old(get_signing_key).calls()
             || exists|req: GetSigningKeyRequest| final(get_signing_key).calls() == old(get_signing_key).calls().push(req), //# C14 name=provider_called_at_most_once
@@ -302,3 +387,5 @@ pub open spec fn accepted<G>(parts: Parts, body: Bytes, options: SignatureOption
             required_headers.prefixes_spec(), region, service, server_timestamp, *old(get_signing_key), old(get_signing_key).calls(), final(get_signing_key).calls(), (parts, body, sigv4_response)));
     }
 //@ end
+} // mod validate_m
+pub use validate_m::*;
